@@ -151,6 +151,8 @@ def run(ctx):
     ctx.require_count("R02.1", 20)
     mirror_obligations(ctx, u, "R02.3")
     ctx.require_count("R02.3", 18)
+    from . import C08
+    C08.bundle_measure_obligation(ctx, u, "R02.3")
     # R02.4 = the forwarding obligations of C01 under this rule id
     before = len(ctx.obs)
     ctx.rules["R01.6"] = ctx.rules["R02.4"]
